@@ -56,7 +56,7 @@ func c18genPlan(rng *rand.Rand, i int) *c18plan {
 	same := rng.Intn(3) == 0
 	names := pick3(rng)
 	for l := 0; l < nl; l++ {
-		o := model.GenOpts{Syn: rng.Intn(2) == 0, Vec: VecBuild && rng.Intn(2) == 0, NoBig: true, IDPrefix: fmt.Sprintf("x%d-", l)}
+		o := model.GenOpts{Syn: rng.Intn(2) == 0, Vec: VecBuild && rng.Intn(2) == 0, NoBig: true, IDPrefix: fmt.Sprintf("x%d-", l), VecSalt: 1 + i%997}
 		if same {
 			o.Names, o.Syn, o.Vec = names, false, false
 		}
